@@ -15,11 +15,11 @@ def dyadic(rng, lo=-64, hi=64):
     return rng.randrange(lo, hi + 1) / 8.0
 
 
-def gen_case(rng, multi_axis=False, k=None, N=None, general=False, wide=None):
+def gen_case(rng, multi_axis=False, k=None, N=None, general=False, wide=None, wide_extents=None):
     """wide: None | 'u8' | 'u16' - extents (or their product) straddle the 2^8 / 2^16 boundary of the narrow
     coordinate types the array cube picks"""
     if wide:
-        base = G.gen_wide_dims(rng, big=(wide == "u16"))
+        base = G.gen_wide_dims(rng, big=(wide == "u16"), extents=wide_extents)
     else:
         base = G.gen_dims(rng, k=k, N=N, max_extent=4, multi_axis=multi_axis, max_hi=3)
     N = base["N"]
